@@ -56,6 +56,75 @@ pub fn scenario(name: &str, srcs: &SrcCache) -> RaceScenario {
         "backup||gc-two-garbage-rev" => (vec![b"GGGGGGGG", b"HHHHHHHH"], vec![], whole_file_opts()),
         "backup||gc-small-hunks" => (vec![b"GGGGGGGG"], vec![], BOpts::new(2, 4, 0)),
         "backup||delete-b0-small-hunks" => (vec![b"GGGGGGGG"], vec![0], BOpts::new(2, 4, 0)),
+        "backup||gc-T1-T2" | "backup||delete-b0-T1-T2" => {
+            // A richer pair of trees (combined small files, a multi-block file whose changed middle
+            // block equals a garbage block, a symlink, a directory) under small-block options.
+            let opts = common::opts_s();
+            let scn = common::build_scenario(
+                name,
+                &[
+                    Step::Backup(common::tree_t1(), opts.clone()),
+                    Step::Garbage(b"XXXXXXXX".to_vec()),
+                    Step::Garbage(b"zzzzzzzz".to_vec()),
+                ],
+                common::tree_t2(),
+                opts.clone(),
+                srcs,
+            );
+            return RaceScenario {
+                name: name.to_string(),
+                initial: scn.pre.clone(),
+                band_src: scn.band_src.clone(),
+                specs: vec![
+                    ActorSpec::Backup {
+                        src: srcs.dir_for(&common::tree_t2()),
+                        opts,
+                    },
+                    ActorSpec::Delete {
+                        bands: if name.contains("delete-b0") { vec![0] } else { vec![] },
+                        order: None,
+                    },
+                ],
+                actor_src: [(0usize, common::tree_t2())].into_iter().collect(),
+                names: vec!["B", "G"],
+            };
+        }
+        "backup||gc||backup" => {
+            // Three actors: two backups of different trees (both reuse the garbage content) and a gc.
+            let opts = whole_file_opts();
+            let g: &[u8] = b"GGGGGGGG";
+            let scn = common::build_scenario(
+                name,
+                &[Step::Backup(base_tree(), opts.clone()), Step::Garbage(g.to_vec())],
+                new_tree(&[g]),
+                opts.clone(),
+                srcs,
+            );
+            let mut other = base_tree();
+            other.insert("keep".into(), Node::file(b"KKKKKKKK", T0 + 231));
+            other.insert("also".into(), Node::file(g, T0 + 232));
+            return RaceScenario {
+                name: name.to_string(),
+                initial: scn.pre.clone(),
+                band_src: scn.band_src.clone(),
+                specs: vec![
+                    ActorSpec::Backup {
+                        src: srcs.dir_for(&new_tree(&[g])),
+                        opts: opts.clone(),
+                    },
+                    ActorSpec::Delete {
+                        bands: vec![],
+                        order: None,
+                    },
+                    ActorSpec::Backup {
+                        src: srcs.dir_for(&other),
+                        opts,
+                    },
+                ],
+                actor_src: [(0usize, new_tree(&[g])), (2usize, other)].into_iter().collect(),
+                names: vec!["B", "G", "C"],
+            };
+        }
         other => panic!("unknown race scenario {other}"),
     };
     let mut hist = vec![Step::Backup(base_tree(), opts.clone())];
@@ -84,6 +153,10 @@ pub fn scenario(name: &str, srcs: &SrcCache) -> RaceScenario {
     }
 }
 
+/// Scenario names. The three-actor scenario "backup||gc||backup" is built by `scenario()` but is
+/// NOT part of the check: C06 quantifies over one backup and one gc. Exploring it (VERIF_C06_EXTRA=1,
+/// reported as NOTE lines, never as a verdict) shows a gap of the lock protocol that needs two
+/// overlapping backups: see DESIGN.md 10.5.
 pub fn scenario_names(thorough: bool) -> Vec<&'static str> {
     if thorough {
         vec![
@@ -93,6 +166,8 @@ pub fn scenario_names(thorough: bool) -> Vec<&'static str> {
             "backup||gc-two-garbage-rev",
             "backup||gc-small-hunks",
             "backup||delete-b0-small-hunks",
+            "backup||gc-T1-T2",
+            "backup||delete-b0-T1-T2",
         ]
     } else {
         vec!["backup||gc", "backup||delete-b0"]
@@ -112,20 +187,22 @@ pub fn oracle(scn: &RaceScenario, t: &Terminal, scratch: &Scratch) -> Vec<Violat
             ));
         }
     }
-    // Which band did the backup create? The one whose BANDHEAD the backup actor wrote.
-    let new_band: Option<u32> = t
-        .steps
-        .iter()
-        .find(|s| s.actor == 0 && s.ok && s.path.ends_with("/BANDHEAD") && s.mutating)
-        .and_then(|s| crate::fmt06::parse_band_dir(s.path.split('/').next().unwrap_or("")));
+    // Which band did each backup create? The one whose BANDHEAD that actor wrote.
+    let mut new_bands: BTreeMap<u32, usize> = BTreeMap::new();
+    for s in &t.steps {
+        if s.ok && s.mutating && s.path.ends_with("/BANDHEAD") && scn.actor_src.contains_key(&s.actor) {
+            if let Some(b) = crate::fmt06::parse_band_dir(s.path.split('/').next().unwrap_or("")) {
+                new_bands.insert(b, s.actor);
+            }
+        }
+    }
     for b in t.snap.band_ids() {
         if !t.snap.has_tail_file(b) {
             continue;
         }
-        let expected = if Some(b) == new_band {
-            scn.actor_src.get(&0)
-        } else {
-            scn.band_src.get(&b)
+        let expected = match new_bands.get(&b) {
+            Some(actor) => scn.actor_src.get(actor),
+            None => scn.band_src.get(&b),
         };
         let problems = common::ref_scan(&t.snap, &[b]);
         if !problems.is_empty() {
@@ -190,6 +267,34 @@ pub fn run(report: &Report, budget: &Budget) {
         }
         report.sample(json!({"scenario": name, "actors": e3::specs_json(&scn.specs), "first_schedule": "all of B then all of G (default), alternatives at every storage operation"}));
         scratch.clear();
+    }
+    if std::env::var("VERIF_C06_EXTRA").is_ok() {
+        let scn = scenario("backup||gc||backup", &srcs);
+        let bad = AtomicUsize::new(0);
+        let shown = AtomicUsize::new(0);
+        let on_terminal = |t: &Terminal, choices: &[usize], scratch: &Scratch| {
+            let vs = oracle(&scn, t, scratch);
+            if !vs.is_empty() {
+                bad.fetch_add(1, Ordering::SeqCst);
+                if t.preemptions <= 1 && shown.fetch_add(1, Ordering::SeqCst) < 3 {
+                    println!(
+                        "NOTE (outside C06's quantifier, three actors): schedule {} ({} preemptions): {}",
+                        e3::schedule_string(choices, &scn.names),
+                        t.preemptions,
+                        vs[0].what.chars().take(300).collect::<String>()
+                    );
+                }
+            }
+        };
+        let st = e3::explore(&scn.initial, &scn.specs, budget, &on_terminal);
+        println!(
+            "NOTE three-actor exploration: states={} executions={} terminal_runs={} runs_with_a_dangling_reference={} complete={}",
+            st.states,
+            st.executions,
+            st.terminal_runs,
+            bad.load(Ordering::SeqCst),
+            st.complete
+        );
     }
     report.set("states", json!(total.0));
     report.set("transitions", json!(total.1));
